@@ -612,13 +612,14 @@ func connectExtractTimeout(headers http.Header, meta *requestMeta) error {
 	if str == "" {
 		return nil
 	}
-	timeoutInt, err := strconv.ParseInt(str, 10, 64)
+	if len(str) > 10 {
+		return fmt.Errorf("timeout header %q has more than 10 digits", str)
+	}
+	timeoutUint, err := strconv.ParseUint(str, 10, 64)
 	if err != nil {
 		return err
 	}
-	if timeoutInt < 0 {
-		return fmt.Errorf("timeout header indicated invalid negative value: %d", timeoutInt)
-	}
+	timeoutInt := int64(timeoutUint) //nolint:gosec // at most 10 digits
 	timeout := time.Millisecond * time.Duration(timeoutInt)
 	if timeout.Milliseconds() != timeoutInt {
 		// overflow
